@@ -46,6 +46,9 @@ CHECKS = {
  "C18": (FE, "vmc+py", "exhaustive crash-point and fault enumeration at the system-call boundary (ptrace monitor) over a scenario table; file-system invariant checked after every run",
    "For each scenario (1..3 files; larger/smaller/equal/empty output; filter error after 0/1 outputs; halt; parse error at value 0/1; failing later file; permission bits; path forms; JSON/YAML/TOML) a dry run records every file-system and write system call after the first input open; the invocation is repeated with the process tree killed before each call, with each failable call failing with each errno of {ENOSPC, EACCES} (thorough: + EIO, EINTR, EROFS), and with each write short. After every run: every input file holds its original bytes or exactly what the invocation without -i prints; replaced only if the filter finished on it and all earlier files were replaced; failed writes never end in status 0; after completion permission bits are unchanged and no temporary file remains.",
    "kill = process tree gone before a system call; power-loss page-cache tearing is out of scope (the property speaks of the process being killed); x86_64 Linux", "DESIGN.md §2 C18"),
+ "C15": (MC, "vmc", "exhaustive syntax trees through an independent printer and back; exhaustive operator sequences against an independent precedence climber; exhaustive trivia placement; shorthand/expansion equivalences",
+   "Every syntax tree of <= 4 (thorough 5) constructors over 10 leaves, 27 unary and 36 binary contexts (all 24 binary operators, bindings with patterns, try/catch, if/elif/else, label, def, reduce/foreach, calls, paths, objects with every key form, interpolation, formats) is printed with only the parentheses the manual's table requires, with every operand parenthesised, and without blanks, and must parse back to the same tree; every sequence of <= 3 (thorough 4) operators out of the 24 and `as $v |` written flat must parse to the grouping of an independent precedence climber; 12 kinds of trivia (blanks, newlines, CRLF, comments with the backslash rule) in every gap of ~2300 (thorough ~11000) programs; 76 shorthand/expansion pairs on 14 inputs; 188 malformed programs must be rejected.",
+   "trusted: the printer's table and the climber, written from docs/corelang.dj; accept/reject of arbitrary token strings against a reference grammar is only covered by the fixed list of malformed programs", "DESIGN.md §2 C15"),
 }
 PENDING = {}
 def main():
